@@ -7,6 +7,7 @@ import (
 	"os"
 	"runtime/debug"
 	"strconv"
+	"strings"
 	"sync/atomic"
 	"syscall"
 	"time"
@@ -144,12 +145,25 @@ func RunWorker(spec WorkerSpec) *WorkerResult {
 		seed := Mix64(spec.Base, spec.Prop, idx)
 		var v *Violation
 		func() {
+			var w *World
 			defer func() {
 				if r := recover(); r != nil {
-					res.Crash = fmt.Sprintf("harness panic at run %d seed %d: %v\n%s", idx, seed, r, debug.Stack())
+					stack := string(debug.Stack())
+					if tp, ok := r.(taskPanic); ok {
+						r, stack = tp.Val, tp.Stack
+					}
+					if w != nil && strings.Contains(stack, "github.com/onheap/eval.") {
+						// Backstop for "every call into the library is wrapped in
+						// recover": a panic that unwound through library frames and
+						// reached the worker is reported against the running
+						// property, whichever harness site failed to catch it. (It is
+						// not minimised: the site that missed it would miss it again.)
+						v = viol(w, "panic-unrecovered", "a call into the library panicked and nothing on the way recovered it: %v\n%s", r, trimStack(stack))
+						return
+					}
+					res.Crash = fmt.Sprintf("harness panic at run %d seed %d: %v\n%s", idx, seed, r, stack)
 				}
 			}()
-			var w *World
 			if spec.Replay != "" {
 				lw, err := LoadWorldFromReplay(spec.Replay)
 				if err != nil {
@@ -194,7 +208,7 @@ func RunWorker(spec WorkerSpec) *WorkerResult {
 				// The un-minimised violation is recorded first: if a shrink
 				// candidate hangs, the watchdog ends this worker and it survives.
 				res.Violations = append(res.Violations, v)
-				if v.Kind != "hang" && spec.ShrinkS > 0 {
+				if v.Kind != "hang" && v.Kind != "panic-unrecovered" && spec.ShrinkS > 0 {
 					found := v.World.Seed
 					// what has been found so far goes to disk first: a shrink candidate
 					// may kill the process outright (a fatal runtime error inside
